@@ -579,3 +579,25 @@ def r14_rename_insert_effective(ctx):
 
 
 RULES += [r14_rename_insert_effective]
+
+
+def r15_boolnum_is_top_reads_implications(ctx):
+    ctx.rule("C04.r15", "flat_boolean_numerical_domain::is_top answers yes only if the product AND the three tables of remembered "
+             "implications (Boolean => linear constraints / reference constraints / Booleans) are top: forget(vector), project, rename "
+             "and expand return early on is_top(), and `b1 := b0` constrains the state while the product stays top", floor=1)
+    FB = "include/crab/domains/flat_boolean_domain.hpp"
+    fs = [f for f in ctx.db.fns(FB, name="is_top") if (f.get("cpk") or "").endswith("flat_boolean_numerical_domain") and f.get("body")]
+    if not ctx.need(fs, "flat_boolean_numerical_domain::is_top"):
+        return
+    fn = fs[0]
+    read = {deref(x).get("n") if isinstance(x, dict) and x.get("k") != "mem" else x.get("n") for x in walk(fn["body"]) if isinstance(x, dict) and x.get("k") == "mem"}
+    need = {"m_product", "m_bool_to_lincsts", "m_bool_to_refcsts", "m_bool_to_bools"}
+    missing = sorted(need - read)
+    if missing:
+        ctx.bad("flat_boolean_numerical_domain::is_top ignores %s: b1 := b0; forget({b0}); assume(b1); assume(!b0) is bottom because forget(vector) "
+                "returns early on a `top` value that still remembers b1 => b0" % ", ".join(missing), fn, fn["body"], sig="boolnum-is-top-partial")
+    else:
+        ctx.ok("is_top reads the product and the three implication tables", fn, fn["body"])
+
+
+RULES += [r15_boolnum_is_top_reads_implications]
